@@ -42,9 +42,23 @@ def float_bits(x: float) -> int:
     return struct.unpack("<q", struct.pack("<d", float(x)))[0]
 
 
+def canon_bytes(a) -> bytes:
+    """C-order bytes of an array with the padding bytes of x87 extended-precision elements removed (they are not part of the
+    value and are not preserved by numpy / HDF5 copies)"""
+    a = np.asarray(a)
+    if a.ndim == 0 and a.dtype.byteorder not in ("=", "|") and a.dtype.kind in "iufc":
+        a = a.astype(a.dtype.newbyteorder("="))     # 0-d values travel as numpy scalars, which are always native
+    a = np.ascontiguousarray(a)
+    d = a.dtype
+    base = d.itemsize // (2 if d.kind == "c" else 1)
+    if d.kind in "fc" and base > 8:
+        return a.reshape(-1).view(np.uint8).reshape(-1, base)[:, :10].tobytes()
+    return a.tobytes()
+
+
 def arr_token(a: np.ndarray) -> int:
     """Digest of dtype-independent raw C-order bytes (63 bit, non-negative)."""
-    h = hashlib.sha256(np.ascontiguousarray(a).tobytes()).digest()
+    h = hashlib.sha256(canon_bytes(a)).digest()
     return int.from_bytes(h[:8], "little") >> 1
 
 
